@@ -13,7 +13,7 @@ CLAIMS = {
         text='verify / verify_rln_proof / verify_with_roots carry postconditions taken from the property: Ok(true) only if the Groth16 check passed for exactly '
              'the carried values in circuit order, carried x == hash_to_field(signal bytes [296..296+len]), carried root == tree root / member of the non-empty root set. '
              'Verus discharges them on the real bodies, so dropping or weakening a check fails a named clause.',
-        note='Assumed (uninterpreted): ark-groth16 verification (groth16_ok), proof point decoding, Keccak; the tree is abstract here (its root is decided under C06). '
+        note='Assumed (uninterpreted): ark-groth16 verification (groth16_ok), proof point decoding, Keccak. The tree is abstract in unit verify_api; the contract it assumes of the tree (`root()` is the ideal root of the current leaves) is discharged for the three backends by the clause root-is-ideal-root of units full_tree / optimal_tree / pm_adapter, which this check also runs (seed C02_A5: a stale cached root in the pmtree adapter). '
              'RLN struct re-declared with the two fields these functions read.',
         design='DESIGN.md §4 C02'),
     'C03': dict(
